@@ -43,8 +43,15 @@ impl MeteredStream {
         ctx: &ctx::Ctx,
         listener: &mut net::tcp::Listener,
     ) -> ctx::Result<Self> {
-        let stream = net::tcp::accept(ctx, listener).await?.context("accept()")?;
-        Ok(Self::new(stream, Direction::Inbound)?)
+        loop {
+            let stream = net::tcp::accept(ctx, listener).await?.context("accept()")?;
+            // The peer might have already reset the connection, in which case the peer address
+            // is not available any more. Such a connection is dropped; it is not a listener error.
+            match Self::new(stream, Direction::Inbound) {
+                Ok(stream) => return Ok(stream),
+                Err(err) => tracing::debug!("dropping an inbound connection: {err:#}"),
+            }
+        }
     }
 
     #[cfg(test)]
